@@ -40,6 +40,10 @@ func (ps *PathSum) call(s *psState, f *psFrame, x *ssa.Call) ([]*psOutcome, bool
 				} else {
 					f.vals[x] = p + "(" + recv + ")"
 				}
+				if strings.HasPrefix(recv, "res:GetNode#") && p == "Expired" {
+					// lemma (C03.lookup, discharged on getNode/getNodeQuietly): a filtered lookup returns nil or an unexpired node
+					f.vals[x] = "false"
+				}
 				if strings.HasPrefix(recv, "fresh") {
 					// a node created on this path: alive, deadlines symbolic
 					switch p {
@@ -140,7 +144,16 @@ func (ps *PathSum) call(s *psState, f *psFrame, x *ssa.Call) ([]*psOutcome, bool
 				f.vals[x] = "nil"
 			}
 		case "len":
-			f.vals[x] = "len(" + args[0] + ")"
+			switch {
+			case args[0] == "nil":
+				f.vals[x] = "const(0)"
+			case s.cells["&len:"+args[0]] == "pos":
+				f.vals[x] = "lenpos(" + args[0] + ")"
+			case strings.HasPrefix(args[0], "map") && !strings.Contains(args[0], "("):
+				f.vals[x] = "const(0)" // a map created on this path and never written
+			default:
+				f.vals[x] = "len(" + args[0] + ")"
+			}
 		case "append":
 			f.vals[x] = "append(" + strings.Join(args, ",") + ")"
 			ps.emit(s, f, pos, "Append", args...)
@@ -170,6 +183,10 @@ func (ps *PathSum) call(s *psState, f *psFrame, x *ssa.Call) ([]*psOutcome, bool
 		if f.depth < ps.maxDepth+4 {
 			return ps.continueWith(f, x, ps.exec(s, ps.newFrame(cl.fn, args, cl.binds, "closure", f))), true
 		}
+	}
+	if fn, ok := ps.funcs[target]; ok && len(fn.Blocks) > 0 && f.depth < ps.maxDepth+4 {
+		// a function literal without captured variables used as a value
+		return ps.continueWith(f, x, ps.exec(s, ps.newFrame(fn, args, nil, "closure", f))), true
 	}
 	// executor / user supplied functions
 	name := target
@@ -331,6 +348,20 @@ func (ps *PathSum) callStatic(s *psState, f *psFrame, x ssa.Instruction, callee 
 		bind("abs(" + args[0] + ")")
 		return nil
 	}
+	if kind, ok := ps.asEvents[o]; ok {
+		res := ps.sym("res:" + kind + "#")
+		ps.emit(s, f, pos, kind, append([]string{res}, args...)...)
+		nres := o.Signature.Results().Len()
+		if nres > 1 {
+			for i := 0; i < nres; i++ {
+				s.cells["&"+res+"."+string(rune('0'+i))] = res + "." + string(rune('0'+i))
+			}
+		}
+		if nres > 0 {
+			bind(res)
+		}
+		return nil
+	}
 	if kind, ok := r.eventFns[o]; ok && !(f.depth == 0 && origin(f.fn) == o) {
 		res := ""
 		if o.Signature.Results().Len() > 0 {
@@ -379,7 +410,7 @@ func (ps *PathSum) callStatic(s *psState, f *psFrame, x ssa.Instruction, callee 
 			ps.emit(s, f, pos, "Atomic", append([]string{o.Name()}, args...)...)
 		}
 		return nil
-	case pkg == "errors" && o.Name() == "Is" && len(args) == 2 && strings.Contains(args[1], "ErrNotFound"):
+	case pkg == "errors" && o.Name() == "Is" && len(args) == 2 && (strings.Contains(args[1], "ErrNotFound") || args[1] == ps.errNotFoundTerm()):
 		if args[0] == "nil" {
 			bind("false")
 		} else {
@@ -425,4 +456,18 @@ func (ps *PathSum) callStatic(s *psState, f *psFrame, x ssa.Instruction, callee 
 		bind(res)
 	}
 	return nil
+}
+
+// errNotFoundTerm renders the ErrNotFound constant the way val() does.
+func (ps *PathSum) errNotFoundTerm() string {
+	c := ps.cx.P.Const("", "ErrNotFound")
+	if c == nil {
+		return "?"
+	}
+	v := c.Val().ExactString()
+	v = strings.Trim(v, "\"")
+	if len(v) > 16 {
+		v = v[:16]
+	}
+	return "str(" + v + ")"
 }
